@@ -1,5 +1,7 @@
 import Operon.Lemmas.C19
+import Operon.Model.CascadeTr
 import Operon.Gen.CascadeTable
+import Operon.Gen.CascadeTranslated
 /-!
 # C19 — cascade gates fail closed and halted pipelines run nothing further
 
@@ -136,6 +138,124 @@ theorem c19_observer_sees_only_completed_stages (cfg : Cfg) (obs : Option StageO
 theorem c19_stage_table_agrees :
     ∃ rows, Gen.CascadeTable.table = some rows ∧ rows.length = 3744 ∧ rows.all rowAgrees = true := by
   refine ⟨_, rfl, by decide +kernel, by decide +kernel⟩
+
+private def sPassE : Stage Nat := ⟨some fun _ => .ok true, fun x => .ok (x + 1), none, true, 2⟩
+private def sRejectE : Stage Nat := ⟨some fun _ => .ok false, fun x => .ok (x + 1), none, true, 2⟩
+
+/-! ### The source of `Cascade.run`, translated on every run, is the model
+
+`Gen/CascadeTranslated.lean` is regenerated on every run by `harness/vf/extract/py2lean_cascade.py`, which executes the
+Python source of `Cascade.run` symbolically (own helper methods inlined, every path of one loop iteration and of the code
+after the loop explored; the user callbacks and the configuration are the branching points).  A path the translator cannot
+follow is `none`, so the theorems below fail when the source leaves the understood subset (fail closed). -/
+
+/-- Before the first stage the loop-carried state of the source is: the input signal, running gain 1, nothing blocked. -/
+theorem c19_translation_agrees_init (x : σ) : Gen.CascadeTranslated.init x = some ⟨x, 1, none⟩ := by
+  rfl
+
+local macro "c19_leaf" : tactic =>
+  `(tactic| (simp only [Gen.CascadeTranslated.body, modelStep, stageStep, stageSeen, gateOpen, process, procOutcome, clamp,
+      procEvs, *] <;> (repeat' split) <;> simp_all))
+
+/-- **One iteration of the source's stage loop is the model's `stageStep`** — for every configuration, observer, stage (any
+    checkpoint / processor / handler behaviour, required or not, any factor) and every loop-carried state: same new signal,
+    running gain and `blocked_at`, same recorded stage result, same callbacks called in the same order on the same signals,
+    same `break` decision, same stages shown to `on_stage_complete`. -/
+theorem c19_translation_agrees_loop_body (cfg : Cfg) (obs : Option StageObs) (i : Nat) (s : Stage σ) (a : Acc σ) :
+    Gen.CascadeTranslated.body cfg obs i s a = some (modelStep cfg obs i s a) := by
+  obtain ⟨halt, mx⟩ := cfg
+  obtain ⟨cp, pr, eh, req, amp⟩ := s
+  obtain ⟨cur, am, blk⟩ := a
+  have hproc : ∀ (cp : Option (σ → Out Bool)), (cp = none ∨ ∃ c, cp = some c ∧ c cur = .ok true) →
+      Gen.CascadeTranslated.body ⟨halt, mx⟩ obs i ⟨cp, pr, eh, req, amp⟩ ⟨cur, am, blk⟩ =
+        some (modelStep ⟨halt, mx⟩ obs i ⟨cp, pr, eh, req, amp⟩ ⟨cur, am, blk⟩) := by
+    intro cp hcp
+    rcases hcp with rfl | ⟨c, rfl, hc⟩ <;>
+    · cases hp : pr cur with
+      | ok v =>
+        cases obs with
+        | none => c19_leaf
+        | some ob => cases ho : ob i <;> c19_leaf
+      | raise =>
+        cases eh with
+        | none => cases halt <;> cases req <;> c19_leaf
+        | some h => cases hh : h cur <;> cases halt <;> cases req <;> c19_leaf
+  cases cp with
+  | none => exact hproc none (Or.inl rfl)
+  | some c =>
+    cases hc : c cur with
+    | raise => cases halt <;> c19_leaf
+    | ok b =>
+      cases b with
+      | false => cases halt <;> c19_leaf
+      | true => exact hproc (some c) (Or.inr ⟨c, rfl, hc⟩)
+
+/-- **The source's code after the loop is the model's `finish`** on every state the loop can leave behind (if as many results
+    are COMPLETED as there are stages, nothing is blocked — `runFromO_consistent` shows every run ends in such a state):
+    success = (completed count = number of stages and nothing blocked), final output only on success, counts, amplification,
+    `blocked_at`; `on_cascade_complete` is called last, with the record that is returned, and `run` raises exactly when it
+    raises. -/
+theorem c19_translation_agrees_finish (cobs : Option CascObs) (n : Nat) (r : Run σ)
+    (hcons : completedCount r.results = n → r.acc.blockedAt = none) :
+    Gen.CascadeTranslated.finish cobs n r = some (finishC cobs n r) := by
+  by_cases hc : completedCount r.results = n
+  · have hb := hcons hc
+    subst hc
+    clear hcons
+    cases cobs with
+    | none => simp only [Gen.CascadeTranslated.finish, finishC, finish, hb] <;> (repeat' split) <;> simp_all
+    | some f =>
+      cases hfo : f () <;>
+        simp only [Gen.CascadeTranslated.finish, finishC, finish, hb, hfo] <;> (repeat' split) <;> simp_all
+  · have hc' : (completedCount r.results == n) = false := by simpa using hc
+    cases cobs with
+    | none => simp only [Gen.CascadeTranslated.finish, finishC, finish, hc', if_neg hc] <;> (repeat' split) <;> simp_all
+    | some f =>
+      cases hfo : f () <;>
+        simp only [Gen.CascadeTranslated.finish, finishC, finish, hc', if_neg hc, hfo] <;> (repeat' split) <;> simp_all
+
+/-- the hypothesis of `c19_translation_agrees_finish` is met by a run that blocks and by one that succeeds -/
+example : (completedCount (run ⟨false, 100⟩ [sRejectE, sPassE] 5).results = 2 → (run ⟨false, 100⟩ [sRejectE, sPassE] 5).acc.blockedAt = none) ∧
+    completedCount (run ⟨true, 100⟩ [sPassE, sPassE] 5).results = 2 := by decide
+
+/-- **The translated `run` — prologue, the loop body folded over ANY stage list the way a Python `for` with `break` does,
+    epilogue — is the model's run**, for every configuration, both observers, every stage list and every input signal. -/
+theorem c19_translated_run_is_model (cfg : Cfg) (obs : Option StageObs) (cobs : Option CascObs) (stages : List (Stage σ))
+    (x : σ) :
+    runTr Gen.CascadeTranslated.init (Gen.CascadeTranslated.body cfg obs) (Gen.CascadeTranslated.finish cobs) stages x =
+      some (resultC cfg obs cobs stages x) := by
+  have hloop : ∀ (rest : List (Stage σ)) (i : Nat) (a : Acc σ),
+      loopTr (Gen.CascadeTranslated.body cfg obs) i rest a = some (runFromO cfg obs i rest a) := by
+    intro rest
+    induction rest with
+    | nil => intro i a; rfl
+    | cons s rest ih =>
+      intro i a
+      simp only [loopTr, runFromO, c19_translation_agrees_loop_body, modelStep]
+      split
+      · rfl
+      · simp only [ih]
+  simp only [runTr, c19_translation_agrees_init, hloop,
+    c19_translation_agrees_finish cobs stages.length _ (runFromO_consistent cfg obs stages x), resultC]
+
+/-- The model's run with both observers is the run the clause theorems above speak about: without `on_cascade_complete`, or
+    with one that returns, the call returns exactly `result cfg stages x`; with one that raises, the call raises (and nothing
+    is returned).  Either way the stages shown to `on_stage_complete` are those of `resultO`. -/
+theorem c19_completion_observer_is_transparent_or_raises (cfg : Cfg) (obs : Option StageObs) (cobs : Option CascObs)
+    (stages : List (Stage σ)) (x : σ) :
+    ((resultC cfg obs cobs stages x).1 = .ok (result cfg stages x) ∨ (resultC cfg obs cobs stages x).1 = .raise) ∧
+    ((cobs = none ∨ ∃ f, cobs = some f ∧ f () = .ok ()) → (resultC cfg obs cobs stages x).1 = .ok (result cfg stages x)) ∧
+    (resultC cfg obs cobs stages x).2 = (resultO cfg obs stages x).2 := by
+  have hres : finish stages.length (runFromO cfg obs 0 stages ⟨x, 1, none⟩).1 = result cfg stages x := by
+    rw [← c19_observer_is_transparent cfg obs stages x]; rfl
+  refine ⟨?_, ?_, rfl⟩
+  · simp only [resultC, finishC]
+    cases cobs with
+    | none => exact Or.inl (by simp [hres])
+    | some f => cases hf : f () <;> simp [hres, hf]
+  · rintro (rfl | ⟨f, rfl, hf⟩)
+    · simp [resultC, finishC, hres]
+    · simp [resultC, finishC, hres, hf]
 
 /-! ### Non-vacuity: concrete pipelines meeting the hypotheses -/
 
